@@ -175,6 +175,11 @@ def check_atheris(case: t.Any, ctx: Ctx) -> None:
 ATHERIS_BUDGET = 240.0
 
 
+def _condition_cases() -> t.Any:
+    from .c13 import cases as cond_cases
+    return cond_cases().map(lambda c: [c[0], c[1], 'condition'])
+
+
 def suites(tier: str) -> t.List[Suite]:
     big = tier == 'thorough'
     leaves = 8 if big else 4
@@ -182,5 +187,7 @@ def suites(tier: str) -> t.List[Suite]:
         Suite('hash-hostile', check, strategy=lambda: gen.conv_cases(gen.hash_hostile_specs()), examples=2000 if big else 150, budget_s=120 if big else 20, render=gen.render_case),
         Suite('twopass', check, strategy=lambda: gen.conv_cases(gen.all_type_specs(leaves)), examples=8000 if big else 600,
               budget_s=480 if big else 40, render=gen.render_case),
+        # conditions see the *converted* value in both passes: the condition grammar of C13 (thresholds, duplicates collapsing in sets, ...)
+        Suite('conditions', check, strategy=_condition_cases, examples=3000 if big else 300, budget_s=120 if big else 20, render=gen.render_case),
         *([Suite('atheris', check_atheris, cases=atheris_cases, budget_s=ATHERIS_BUDGET + 200)] if big else []),
     ]
